@@ -7,7 +7,7 @@ recorded in its meta.json against it (tools/try_mutant.sh) and rewrites the resu
 import json, glob, os, re, subprocess, sys
 root = os.path.dirname(os.path.dirname(os.path.abspath(__file__)))
 own_only = '--own' in sys.argv
-sel = [a for a in sys.argv[1:] if a != '--own']
+sel = [a for a in sys.argv[1:] if a not in ('--own', '--fast')]
 bad = 0
 for f in sorted(glob.glob(os.path.join(root, "seeded", "*", "meta.json")) + glob.glob(os.path.join(root, "regress", "*", "meta.json")) + glob.glob(os.path.join(root, "probes", "*", "meta.json"))):
     m = json.load(open(f))
@@ -16,7 +16,10 @@ for f in sorted(glob.glob(os.path.join(root, "seeded", "*", "meta.json")) + glob
     checks = sorted(set(m["checks_run_against_it"]["results"].keys()) | {m["breaks_property"]})
     if own_only:
         checks = [m["breaks_property"]]
-    t = subprocess.run([os.path.join(root, "tools/try_mutant.sh"), os.path.join(os.path.dirname(f), "patch.diff")] + checks, capture_output=True, text=True)
+    env = dict(os.environ)
+    if '--fast' in sys.argv:
+        env['GSIM_MIN_BUDGET_S'] = '3'
+    t = subprocess.run([os.path.join(root, "tools/try_mutant.sh"), os.path.join(os.path.dirname(f), "patch.diff")] + checks, capture_output=True, text=True, env=env)
     results, cur = {}, None
     for l in t.stdout.splitlines():
         mm = re.match(r"== (\S+) exit=(\d+)", l)
